@@ -48,21 +48,6 @@ where
         self.count += 1;
     }
 
-    #[inline]
-    fn update_stats_remove(&mut self, old_value: T) {
-        if self.count <= 1 {
-            // removing the only sample leaves the empty state
-            self.mean = T::zero();
-            self.m2 = T::zero();
-            self.count = 0;
-            return;
-        }
-        let delta = old_value - self.mean;
-        self.mean = self.mean - (delta / T::from(self.count - 1).unwrap());
-        self.m2 = self.m2 - (delta * (old_value - self.mean));
-        self.count -= 1;
-    }
-
     /// Return the variance of the sliding window
     #[inline]
     pub fn variance(&self) -> T {
@@ -88,8 +73,19 @@ where
         self.q_vals.push_back(val);
 
         if self.q_vals.len() > self.window_len {
-            let old_val = self.q_vals.pop_front().unwrap();
-            self.update_stats_remove(old_val);
+            self.q_vals.pop_front();
+            // Downdating mean and m2 for the value that left subtracts large
+            // terms and leaves rounding residue behind, which a flat window
+            // then reports as its variance. Rebuild the statistics from the
+            // values in the window instead.
+            self.mean = T::zero();
+            self.m2 = T::zero();
+            self.count = 0;
+            for i in 0..self.q_vals.len() {
+                let x = self.q_vals[i];
+                self.update_stats_add(x);
+            }
+            return;
         }
         self.update_stats_add(val);
     }
